@@ -523,7 +523,7 @@ func kindSeed(name string) uint64 {
 // process death the harness cannot recover from (the runtime's fatal "out of memory"
 // when a parser allocates by a claimed count) to the input that caused it.
 func trackCase(prop, kind string, js []byte) {
-	if outDir == "" || prop != "C08" {
+	if outDir == "" || (prop != "C08" && prop != "C19") {
 		return
 	}
 	doc, _ := json.Marshal(map[string]any{"property": prop, "kind": kind, "case": json.RawMessage(js)})
@@ -532,7 +532,7 @@ func trackCase(prop, kind string, js []byte) {
 
 func (k *Kind[C]) One(ev *Ev, c C) bool {
 	o := &Obs{}
-	if k.Prop == "C08" {
+	if k.Prop == "C08" || k.Prop == "C19" {
 		pre, _ := json.Marshal(c)
 		trackCase(k.Prop, k.Name, pre)
 	}
@@ -570,7 +570,7 @@ func (k *Kind[C]) Run(t *testing.T, ev *Ev, checks int) {
 		rapid.Check(st, func(rt *rapid.T) {
 			c := k.Gen(rt)
 			o := &Obs{}
-			if k.Prop == "C08" {
+			if k.Prop == "C08" || k.Prop == "C19" {
 				pre, _ := json.Marshal(c)
 				trackCase(k.Prop, k.Name, pre)
 				if runs%200 == 0 {
